@@ -338,6 +338,35 @@ def radial_worker(part, job):
                     part.outcome(("error", "atomic", bg))
                 except Exception as e:
                     part.fail("missing-surface-other-error:atomic", "atomic descriptors with background %g raised %s instead of ValueError" % (bg, type(e).__name__), {"kind": "radial", "mol": name, "L": L})
+    # degenerate sizes of the same clause: a molecule that IS one atom (Ar, He), and a diatomic asked with a neighbour radius shorter than
+    # its bond (every atom isolated) - with a background too small for the lone atom's surface to lie inside the search bounds the
+    # request is refused; with the default background the lone atom's surface exists and is a sphere (only l = 0 is populated)
+    if name == "H2O":
+        from chmpy.core.molecule import Molecule
+        from chmpy.core.element import Element
+
+        lone = [("Ar", [18], [[0.0, 0.0, 0.0]], {}), ("He", [2], [[0.3, -0.2, 0.1]], {}), ("N2 with radius 0.5", [7, 7], [[0.0, 0.0, 0.0], [0.0, 0.0, 1.1]], {"radius": 0.5})]
+        for lname, lz, lpos, kw in lone:
+            m = Molecule([Element.from_atomic_number(z) for z in lz], np.array(lpos, dtype=float))
+            for bg in (1e-10, 0.0):
+                part.ev()
+                try:
+                    d = np.asarray(m.atomic_shape_descriptors(l_max=4, background=bg, **kw), dtype=float)
+                    part.fail("missing-surface-described:lone-atom", "atomic descriptors of %s with background %g (the lone atom's surface lies outside the search bounds) returned an array instead of raising"
+                              % (lname, bg), {"kind": "radial", "mol": name, "L": L})
+                except ValueError:
+                    part.outcome(("error", "lone-atom", bg))
+                except Exception as e:
+                    part.fail("missing-surface-other-error:lone-atom", "atomic descriptors of %s with background %g raised %s instead of ValueError" % (lname, bg, type(e).__name__), {"kind": "radial", "mol": name, "L": L})
+            part.ev()
+            try:
+                d = np.atleast_2d(np.asarray(m.atomic_shape_descriptors(l_max=4, **kw), dtype=float))
+                d2 = np.atleast_2d(np.asarray(Molecule([Element.from_atomic_number(z) for z in lz], np.array(lpos, dtype=float) @ rot((1, 2, 3), 0.7).T + np.array([2.0, -1.0, 0.5])).atomic_shape_descriptors(l_max=4, **kw), dtype=float))
+                if d.shape[0] != len(lz) or not np.all(np.isfinite(d)) or not (np.abs(d[:, 1:5]).max() <= 1e-3 * np.abs(d[:, 0]).max()) or not (np.abs(d - d2).max() <= 1e-3 * np.abs(d).max()):
+                    part.fail("lone-atom-descriptor", "atomic descriptors of %s (default background): not one finite row per atom describing a sphere, or not the same in another pose" % lname,
+                              {"kind": "radial", "mol": name, "L": L})
+            except Exception as e:
+                part.fail("lone-atom-raise", "atomic descriptors of %s with the default background raised %s: %s" % (lname, type(e).__name__, str(e)[:80]), {"kind": "radial", "mol": name, "L": L})
     part.nstates(1)
 
 
